@@ -70,6 +70,11 @@ CLAIMED = {
   ref="DESIGN.md §6 C05",
   note="Partial: the rectangle code paths of src/decode/read_write.rs (skip arithmetic, block ranges, width offsets, the 3072-byte conversion buffer) are not modelled line by line; they are compared against the specification-level model on generated inputs. The native-layout full decode is the reference image (verified by C03/C04 for the modelled formats, taken as is for BC6H/ASTC).",
   tech="Coq proof (list lemmas, induction over rows) + differential execution against the specification-level model"),
+ "C12": dict(
+  text="Coq theorems over whole input domains: every 8-bit value is stored exactly by 8/10/16-bit UNORM, half, f32 and shared-exponent fields (decoding at 8 bits returns it) and widened exactly into 16-bit fields; every 16-bit value is stored exactly by 16-bit UNORM and f32 fields; into narrower UNORM/SNORM/XR fields every 8-bit and every 16-bit value receives the nearest code (exactly nearest except 45772 into 10 bits and 43733 into SNORM8, where f32 double rounding gives an error of 0.50003 of a step - stated with that slack and invisible at 16-bit comparison). The encoder model (universal path: input to four f32 channels, from_f32 quantisers, bit packing of 35 formats) is compared byte for byte with dds::encode, which also establishes that the copy / colour-convert / universal variants agree.",
+  ref="DESIGN.md §6 C12",
+  note="Partial: f32 inputs are compared with the model on boundary/special/random values but have no rounding theorem; dithering is excluded by the property; the sub-sampled and bi-planar encoders are covered by oracles only (round trip, bounds, independence of input colour format / pitch).",
+  tech="Coq proof (exhaustive finite sweeps over an executable IEEE-754 model) + differential execution + round-trip/independence oracles"),
  "C19": dict(
   text="Coq theorems over the implementation's regenerated tables: for every header from which a format is detected (all valid DXGI codes x alpha modes incl. the premultiplied special cases, every FourCC, every mask pixel format; all other fields symbolic) the pixel layout derived from the header equals the pixel layout of the detected format, so layouts computed with or without a decoder coincide; every implemented format's pixel layout is within the bounds the layout/script theorems assume; size multiples are advertised exactly for the bi-planar formats and equal their sub-sampling; advertised bits per pixel are exact for fixed-size pixels and an upper bound per whole block otherwise. Observed behaviour is tied to the tables by differential execution: header detection sweep here, bytes consumed by decoding in C06, sizes accepted by encoding in C10. The dithering clauses are checked by an implementation-only oracle over all encodable formats.",
   ref="DESIGN.md §6 C19",
